@@ -5,6 +5,8 @@ import os
 import numpy as np
 from hypothesis import strategies as st
 
+from ..core import sampled_from  # noqa: E402
+
 from .. import build, meshgen, writers
 from .. import sphere as S
 from ..core import Failure
@@ -41,11 +43,11 @@ FORMATS = ["ugrid", "exodus", "scrip"]
 
 @st.composite
 def _gridspec(draw, big):
-    src = draw(st.sampled_from(["topology", "topology", "vertices-xyz", "mpas"]))
+    src = draw(sampled_from(["topology", "topology", "vertices-xyz", "mpas"]))
     if src == "mpas":
         mesh = draw(meshgen.voronoi_mesh(6, 16 if big else 10, renumber=False))
     else:
-        fam = draw(st.sampled_from(["hull", "hull", "latlon", "solid", "tiny"]))
+        fam = draw(sampled_from(["hull", "hull", "latlon", "solid", "tiny"]))
         if fam == "tiny":
             mesh = draw(meshgen.tiny_patch_mesh(micro=True))
         elif fam == "hull":
@@ -56,8 +58,8 @@ def _gridspec(draw, big):
             mesh = draw(meshgen.solid_mesh_st())
         mesh.pop("centers", None)
         if src == "topology" and draw(st.integers(0, 5)) == 0:
-            mesh = meshgen.with_orphan_nodes(draw, mesh, draw(st.sampled_from([2, 9])))
-    return {"mesh": mesh, "source": src, "radius": draw(st.sampled_from([1.0, 1.0, 2.5, 6371229.0]))}
+            mesh = meshgen.with_orphan_nodes(draw, mesh, draw(sampled_from([2, 9])))
+    return {"mesh": mesh, "source": src, "radius": draw(sampled_from([1.0, 1.0, 2.5, 6371229.0]))}
 
 
 @st.composite
@@ -67,12 +69,12 @@ def _case(draw, tier):
     n = len(grids)
     steps = []
     for _ in range(draw(st.integers(1, 8))):
-        if draw(st.sampled_from([True, True, False])):
-            steps.append(["enc", draw(st.integers(0, n - 1)), draw(st.sampled_from(FORMATS)), draw(st.sampled_from(["to_xarray", "to_xarray", "encode_as"])), draw(st.sampled_from([False, False, True]))])
+        if draw(sampled_from([True, True, False])):
+            steps.append(["enc", draw(st.integers(0, n - 1)), draw(sampled_from(FORMATS)), draw(sampled_from(["to_xarray", "to_xarray", "encode_as"])), draw(sampled_from([False, False, True]))])
         else:
-            steps.append(["mat", draw(st.integers(0, n - 1)), draw(st.sampled_from(QUANTITIES))])
+            steps.append(["mat", draw(st.integers(0, n - 1)), draw(sampled_from(QUANTITIES))])
     if not any(s[0] == "enc" for s in steps):
-        steps.append(["enc", 0, draw(st.sampled_from(FORMATS)), "to_xarray", False])
+        steps.append(["enc", 0, draw(sampled_from(FORMATS)), "to_xarray", False])
     return {"grids": grids, "steps": steps}
 
 
